@@ -363,6 +363,15 @@ pub fn registry() -> Vec<Entry> {
                             // optional: the constructor may refuse (PopulationTooLarge); if it builds a value, sampling it must not panic (F11)
                             (1u64 << 62, 1 << 40, 1 << 61, "H2PE optional")] {
         ent!(v, "Hypergeometric", "int", var, [nn, k, s], Hypergeometric::new(nn, k, s).ok().and_then(b::<_, u64>)); }
+    // every integer weight type once (the weight type is part of the serialised form and of the sampler's arithmetic)
+    macro_rules! int_weight_types { ($($t:ty),*) => { $(
+        { let ws: Vec<$t> = vec![2, 1, 0, 5]; let (w2, w3) = (ws.clone(), ws.clone());
+          v.push(Entry { family: "WeightedAliasIndex", ft: "int", params: ws.iter().map(|&x| x as f64).collect(), variant: stringify!($t),
+              make: Box::new(move || crate::util::guarded(|| WeightedAliasIndex::<$t>::new(w2.clone()).ok()).ok().flatten().map(|d| Box::new(WN(d, std::marker::PhantomData::<usize>)) as Box<dyn Obj>)) });
+          v.push(Entry { family: "WeightedTreeIndex", ft: "int", params: ws.iter().map(|&x| x as f64).collect(), variant: stringify!($t),
+              make: Box::new(move || crate::util::guarded(|| WeightedTreeIndex::<$t>::new(w3.iter()).ok()).ok().flatten().and_then(bt::<$t>)) }); }
+    )* } }
+    int_weight_types!(u8, i8, u16, i16, i32, u64, i64, u128, i128, usize);
     for ws in [vec![2u32, 1, 1], vec![0, 3, 7, 0, 1], vec![1; 17]] {
         let w2 = ws.clone(); let w3 = ws.clone();
         v.push(Entry { family: "WeightedAliasIndex", ft: "int", params: ws.iter().map(|&x| x as f64).collect(), variant: "-",
